@@ -6,6 +6,7 @@ import H3.Lemmas.GenAgreeReq
 import H3.Lemmas.GenAgreeCtl
 import H3.Lemmas.FramingStrict
 import H3.Lemmas.FrameStreamSplit
+import H3.Lemmas.C06Frame
 /-! # C02 — frame boundaries follow RFC 9114 §7.1 exactly, independent of chunking
 
 Property theorems only.  Models: `H3.Frame` (`Frame::decode`, `proto/frame.rs`), `H3.FS`
@@ -790,5 +791,82 @@ theorem C02_driver_runs_the_model (fuel : Nat) (s : St) (script : List Ev) (call
 
 example : readerLoopF 40 {} [.chunk [0x01, 0x03, 0xaa], .chunk [0xbb], .chunk [0xcc, 0x07, 0x01, 0x05], .fin] =
     [.frame (.headers [0xaa, 0xbb, 0xcc]), .frame (.goaway 5), .none] := by decide +kernel
+
+/-! ## 9. Declared lengths beyond 2^30 (builder bC12)
+
+    The length field of a frame header is a varint of up to 62 bits and nothing but the end of the stream bounds it.  The code
+    computes with it in `usize`: `Incomplete(remaining + 1)`, `Incomplete(2 + len as usize)`, `buf.take(len as usize)` (reached
+    only when `len` bytes are buffered).  The model has `Nat` there; this is the bound that makes the two the same on a 64-bit
+    target. -/
+
+private theorem varint_endOf_le (bs : Varint.Bytes) (k : Nat) (h : H3.Varint.decode bs = .endOf k) : k ≤ 3 := by
+  unfold H3.Varint.decode at h
+  split at h
+  · cases h; omega
+  · simp only at h
+    repeat' split at h
+    all_goals first | (cases h; omega) | cases h
+
+/-- Whatever `Frame::decode` answers `Incomplete(m)` on: `m` is the number of bytes it looked at plus one, or two plus a declared
+    length below 2^62 (or the small constant of the WebTransport arm) - so with fewer than 2^63 bytes buffered neither
+    `remaining + 1` nor `2 + len` leaves `usize` on a 64-bit target (`m < 2^64`), and the `expected` memo compares the true number. -/
+theorem C02_incomplete_no_wrap (b : Varint.Bytes) (hwf : WF b) (m : Nat)
+    (h : H3.Frame.decode b = .incomplete m) :
+    (m ≤ b.length + 1 ∨ m < 2 ^ 62 + 2) ∧ (b.length < 2 ^ 63 → m < 2 ^ 64) := by
+  have key : m ≤ b.length + 1 ∨ m < 2 ^ 62 + 2 := by
+    unfold H3.Frame.decode at h
+    cases h1 : H3.Varint.decode b with
+    | endOf k =>
+      rw [h1] at h
+      simp only [H3.Frame.DecRes.incomplete.injEq] at h
+      omega
+    | ok ty r1 =>
+      rw [h1] at h
+      simp only at h
+      have hr1 := (H3.C06.varint_ok_bound b hwf ty r1 h1).2
+      split at h
+      · cases h2 : H3.Varint.decode r1 with
+        | endOf k =>
+          rw [h2] at h
+          simp only [H3.Frame.DecRes.incomplete.injEq] at h
+          have := varint_endOf_le r1 k h2
+          omega
+        | ok sid r2 => rw [h2] at h; cases h
+      · unfold H3.Frame.afterType at h
+        cases h2 : H3.Varint.decode r1 with
+        | endOf k =>
+          rw [h2] at h
+          simp only [H3.Frame.DecRes.incomplete.injEq] at h
+          omega
+        | ok l r2 =>
+          rw [h2] at h
+          simp only at h
+          have hl := (H3.C06.varint_ok_bound r1 hr1 l r2 h2).1
+          split at h
+          · cases h
+          · split at h
+            · simp only [H3.Frame.DecRes.incomplete.injEq] at h
+              omega
+            · exfalso
+              revert h
+              unfold H3.Frame.typed
+              repeat' split
+              all_goals intro h; cases h
+  refine ⟨key, fun hb => ?_⟩
+  rcases key with k | k <;> omega
+
+-- HEADERS declaring 2^62-1 bytes, three present: the bare decoder asks for 2 + (2^62-1) bytes, the oracle says "the stream ended
+-- inside a frame", the reader loop of the model answers UnexpectedEnd - whole, and cut inside the 8-byte length field
+example : H3.Frame.decode [0x01, 0xff, 0xff, 0xff, 0xff, 0xff, 0xff, 0xff, 0xff, 0xaa, 0xbb, 0xcc] = .incomplete (2 ^ 62 + 1) ∧
+    observe 13 [0x01, 0xff, 0xff, 0xff, 0xff, 0xff, 0xff, 0xff, 0xff, 0xaa, 0xbb, 0xcc] .fin = [.truncated] ∧
+    readerLoop 20 {} [.chunk [0x01, 0xff, 0xff, 0xff, 0xff, 0xff, 0xff, 0xff, 0xff, 0xaa, 0xbb, 0xcc], .fin] = [.errEnd] ∧
+    readerLoop 20 {} [.chunk [0x01, 0xff, 0xff, 0xff, 0xff], .chunk [0xff, 0xff, 0xff, 0xff, 0xaa, 0xbb, 0xcc], .fin] = [.errEnd] := by
+  decide +kernel
+-- DATA declaring 2^32 bytes, one present, then the end: the header is handed out, then the truncation error
+example : observe 11 [0x00, 0xc0, 0x00, 0x00, 0x01, 0x00, 0x00, 0x00, 0x00, 0xaa] .fin =
+      [.frame (.data (2 ^ 32)), .partialData [0xaa], .truncated] ∧
+    readerLoop 20 {} [.chunk [0x00, 0xc0, 0x00, 0x00, 0x01], .chunk [0x00, 0x00, 0x00, 0x00], .chunk [0xaa], .fin] =
+      [.frame (.data (2 ^ 32)), .data [0xaa], .errEnd] := by
+  decide +kernel
 
 end H3.Props.C02
